@@ -199,6 +199,13 @@ func (a *ctlFn) Evaluate(_ plugintypes.RuleMetadata, txS plugintypes.Transaction
 				Msg("Invalid audit log part")
 			return
 		}
+		// ApplyAuditLogParts leaves the mandatory parts A and Z implicit for +/- modifications
+		if len(AuditLogParts) == 0 || AuditLogParts[0] != types.AuditLogPartHeader {
+			AuditLogParts = append(types.AuditLogParts{types.AuditLogPartHeader}, AuditLogParts...)
+		}
+		if AuditLogParts[len(AuditLogParts)-1] != types.AuditLogPartEndMarker {
+			AuditLogParts = append(AuditLogParts, types.AuditLogPartEndMarker)
+		}
 		tx.AuditLogParts = AuditLogParts
 	case ctlForceRequestBodyVariable:
 		val, ok := parseOnOff(a.value)
